@@ -775,7 +775,11 @@ func (t *TBtree) GetOptions() *Options {
 		WithHistoryLogMaxOpenedFiles(t.historyLogMaxOpenedFiles).
 		WithCommitLogMaxOpenedFiles(t.commitLogMaxOpenedFiles).
 		WithAppFactory(t.appFactory).
-		WithAppRemoveFunc(t.appRemove)
+		WithAppRemoveFunc(t.appRemove).
+		// a tree reopened with these options (e.g. after a compaction) keeps reporting its flushes
+		// and keeps the same limit on buffered data
+		WithMaxBufferedDataSize(t.maxBufferedDataSize).
+		WithOnFlushFunc(t.onFlush)
 }
 
 // nodeLoad holds the result of a single in-flight cache-miss load.
